@@ -29,4 +29,24 @@ PROPS = {
     ),
 }
 
+PROPS["C02"] = dict(
+    level="proof",
+    technique="Lean 4 theorems (exact pixel test; routing = hot pixels met, in travel order, by level induction) on a hand-written model + exhaustive/differential correspondence with pointindex",
+    module="Texel.Properties.C02",
+    translators=[],
+    theorems=["Texel.C02.C02_pixel_test", "Texel.C02.C02_hot_closed", "Texel.C02.C02_routing", "Texel.C02.C02_routing_index",
+              "Texel.C02.C02_nodup", "Texel.C02.C02_routed_nonempty"],
+    streams=["li", "li-large", "route", "route-random"],
+    trusted=["Model.Geom/Model.Route are hand-written mirrors of containsPoint, lineIntersects, findIntersectingQuadrants, snapClosestPoints, InsertPoint, insertCoord; "
+             "tied by the li/route correspondence (exhaustive small scopes) through the verif hooks XLineIntersects, XNew, InsertCoord, XSnapInt",
+             "Morton-keyed maps are modelled as sets of (x,y) pairs (justified by the C17 theorems)",
+             "int64 arithmetic of the code does not overflow (|coordinates| < 2^62; the 128-bit products are validated against math/big on coordinates up to 2^60)"],
+    design_ref="DESIGN.md §6 C02",
+    level_text="First sentence: theorems for every grid, segment, parent-closed hot set and level (no bound): the pixel test is exactly 'closed segment meets half-open pixel', "
+               "the descent returns exactly the hot pixels met, without repetition, in travel order, and never nothing for a polygon edge. The model is tied to pointindex by an exhaustive "
+               "correspondence (all 12 005 small li cases; thorough: all quarter-lattice segments x all 512 hot subsets of a 3x3 window at three placements) and the exact oracle runs on every implementation answer. "
+               "Second sentence (non-collapsing polygons come back as the concatenation of routed edges): validated by the snap correspondence and an oracle, see C05/C18.",
+    level_note="Trusted: Lean kernel; the hand-written model is tied by differential testing, not by translation; float<->int conversion at the API boundary is outside the model (ops carry the int64 coordinates).",
+)
+
 NOT_CLAIMED = {}
